@@ -111,4 +111,12 @@ theorem generator_next_name_snapshot_witness :
     fresh preFixGeneratorInit "_next_name" = some "name_sequence('_t')" ∧
     writesCovered preFixGeneratorReset ["_next_name", "unsupported_messages"] [] = false := by decide +kernel
 
+/-! ### (c) process-wide state -/
+
+/-- the places where code running after import writes state shared by the whole process (module-level containers mutated in
+    functions, class attributes written through `cls` / `type(self)`, `globals()`, functools caches, `*_CACHE` names), as
+    extracted from the current source, are exactly the audited ones (finite table, decided completely).  What the audited
+    ones do to results is covered by the fresh-process / call-order sweep, not by this theorem. -/
+theorem process_wide_state_ok : processWideState = expectedProcessWideState := by decide +kernel
+
 end SqlglotModel.Properties.C15
